@@ -3,7 +3,7 @@
    Model/MetaOnly.v, the proofs are in Proofs/MetaOnlyP.v. *)
 From Coq Require Import List NArith Bool.
 From FS Require Import Sx Model.Path Model.Stat Model.Validator Model.Hardlinks Model.MetaOnly
-  Proofs.MetaOnlyP.
+  Proofs.ValidatorP Proofs.MetaOnlyP.
 From FSGen Require FromSource.
 Import ListNotations.
 Open Scope nat_scope.
@@ -65,6 +65,19 @@ Theorem forwarded_exact_plain : forall sel stats,
   r_forwarded (meta_recv sel stats) = filter (needed sel stats) stats.
 Proof. exact forwarded_exact_plain_proof. Qed.
 
+(* The pending-ancestor stack itself (top first; Go's [items] is its reverse): after any
+   accepted prefix pre ++ [cur] of what the receive loop handles, the stack is a parent chain
+   (each element is the parent directory of the one above it) and holds exactly the unselected
+   directories seen so far that are ancestors-or-self of the current entry and have no selected
+   entry at or below them yet — i.e. exactly the ancestor directories not yet forwarded. *)
+Theorem stack_exact : forall sel pre cur,
+  valid_stream (pre ++ [cur]) -> (forall x, In x (pre ++ [cur]) -> is_listing x = false) ->
+  chain_ok (mstack sel [] (pre ++ [cur])) /\
+  forall d, In d (mstack sel [] (pre ++ [cur])) <->
+    (In d (pre ++ [cur]) /\ sel d = false /\ st_is_dir d = true /\ is_prefix (cp d) (cp cur)
+     /\ forall t, In t (pre ++ [cur]) -> sel t = true -> ~ is_prefix (cp d) (cp t)).
+Proof. exact stack_exact_proof. Qed.
+
 (* Hence the forwarded sequence is itself ordered and parent-closed (accepted by the order
    validator), and — when the selector selects the link source of every hard link it selects
    ([link_closed]) — accepted by the hard-link validator: the writer never meets a link whose
@@ -90,6 +103,7 @@ Print Assumptions ids_complete.
 Print Assumptions buffer_is_concat.
 Print Assumptions forwarded_exact.
 Print Assumptions forwarded_exact_plain.
+Print Assumptions stack_exact.
 Print Assumptions forwarded_valid.
 Print Assumptions recv_valid_of_valid.
 
